@@ -26,8 +26,8 @@ Print Assumptions C08_bridged_implies_key_and_user.
 
 (* the same for the NAT-hole request proper: a session is opened and the owner receives a sid only for a
    non-pre-check request signed with the xtcp proxy's key by an allowed user (the repaired HandleVisitor) *)
-Theorem C08_natole_session_implies_key_and_user : forall hash h rid name ts sign pre sid s' n sid',
-  sys_step hash (sys_state hash h) (SNatHole rid name ts sign pre sid) = (s', ONh (NhNotified n sid')) ->
+Theorem C08_natole_session_implies_key_and_user : forall hash h rid name ts sign pre sid dl s' n sid',
+  sys_step hash (sys_state hash h) (SNatHole rid name ts sign pre sid dl) = (s', ONh (NhNotified n sid')) ->
   pre = false /\ n = name /\ sid' = sid /\
   exists r user,
     sp_reg (spec_of h) name = Some r /\ is_hole (vr_kind r) = true /\
@@ -35,19 +35,28 @@ Theorem C08_natole_session_implies_key_and_user : forall hash h rid name ts sign
 Proof. exact natole_session_implies_key_and_user. Qed.
 Print Assumptions C08_natole_session_implies_key_and_user.
 
-Theorem C08_precheck_never_bridges : forall hash h rid name ts sign sid,
-  exists o, sys_step hash (sys_state hash h) (SNatHole rid name ts sign true sid) = (sys_state hash h, o) /\
-            sys_events (SNatHole rid name ts sign true sid) o = [] /\
+Theorem C08_precheck_never_bridges : forall hash h rid name ts sign sid dl,
+  exists o, sys_step hash (sys_state hash h) (SNatHole rid name ts sign true sid dl) = (sys_state hash h, o) /\
+            sys_events (SNatHole rid name ts sign true sid dl) o = [] /\
             (o = ONoSession \/ o = ONh NhPreOk \/ o = ONh NhErrNoServer \/ o = ONh NhErrUser).
 Proof. exact precheck_never_bridges. Qed.
 Print Assumptions C08_precheck_never_bridges.
 
-Theorem C08_precheck_ok_implies_user : forall hash h rid name ts sign sid s',
-  sys_step hash (sys_state hash h) (SNatHole rid name ts sign true sid) = (s', ONh NhPreOk) ->
+Theorem C08_precheck_ok_implies_user : forall hash h rid name ts sign sid dl s',
+  sys_step hash (sys_state hash h) (SNatHole rid name ts sign true sid dl) = (s', ONh NhPreOk) ->
   exists r user, sp_reg (spec_of h) name = Some r /\ is_hole (vr_kind r) = true /\
                  sp_user (spec_of h) rid = Some user /\ (In user (vr_allow r) \/ In vstar (vr_allow r)).
 Proof. exact precheck_ok_implies_user. Qed.
 Print Assumptions C08_precheck_ok_implies_user.
+
+(* a NAT-hole request leaves a session behind and produces an event only when the owner was notified: refusals,
+   pre-checks and hand-overs that nobody received within NatHoleTimeout (owner gone) return the state unchanged *)
+Theorem C08_nathole_no_session_unless_notified : forall hash s rid name ts sign pre sid dl s' o,
+  sys_step hash s (SNatHole rid name ts sign pre sid dl) = (s', o) ->
+  (forall n x, o <> ONh (NhNotified n x)) ->
+  s' = s /\ sys_events (SNatHole rid name ts sign pre sid dl) o = [].
+Proof. exact nathole_no_session_unless_notified. Qed.
+Print Assumptions C08_nathole_no_session_unless_notified.
 
 (* any request answered with an error leaves the complete server state unchanged (from any state) *)
 Theorem C08_refused_leaves_no_state : forall hash s op s' o,
@@ -67,7 +76,7 @@ Theorem C08_owner_event_only_on_admission : forall op o e,
   In e (sys_events op o) ->
   match e with
   | EvQueued name cid => exists rid ts sign ue uc eok, op = SVisitorConn rid name ts sign ue uc cid eok /\ o = OVis VOk
-  | EvSid name sid => exists rid n ts sign pre x, op = SNatHole rid n ts sign pre x /\ o = ONh (NhNotified name sid)
+  | EvSid name sid => exists rid n ts sign pre x dl, op = SNatHole rid n ts sign pre x dl /\ o = ONh (NhNotified name sid)
   | EvBackend name cid => exists c, op = SAccept name /\ o = OAccepted c /\ vc_id c = cid
   end.
 Proof. exact owner_event_only_on_admission. Qed.
@@ -86,8 +95,8 @@ Theorem C08_closed_proxy_admits_nobody : forall hash h name,
   (forall rid ts sign ue uc cid eok,
       exists o, sys_step hash (sys_state hash h) (SVisitorConn rid name ts sign ue uc cid eok) = (sys_state hash h, o) /\
                 (o = OVis VErrNoListener \/ o = OVisErrNoControl)) /\
-  (forall rid ts sign pre sid,
-      exists o, sys_step hash (sys_state hash h) (SNatHole rid name ts sign pre sid) = (sys_state hash h, o) /\
+  (forall rid ts sign pre sid dl,
+      exists o, sys_step hash (sys_state hash h) (SNatHole rid name ts sign pre sid dl) = (sys_state hash h, o) /\
                 (o = ONh NhErrNoServer \/ o = ONoSession)).
 Proof. exact closed_proxy_admits_nobody. Qed.
 Print Assumptions C08_closed_proxy_admits_nobody.
@@ -133,8 +142,8 @@ Print Assumptions C08_star_admits_any_user_with_key_stream.
 
 Theorem C08_star_admits_any_user_with_key_hole : forall hash s name cfg ts user sid,
   vget name (nh_cfgs s) = Some cfg -> In vstar (nc_allow cfg) ->
-  (exists s', vnh_handle_visitor hash s name ts (hash (nc_sk cfg) ts) false user sid = (s', NhNotified name sid)) /\
-  vnh_handle_visitor hash s name ts (hash (nc_sk cfg) ts) true user sid = (s, NhPreOk).
+  (exists s', vnh_handle_visitor hash s name ts (hash (nc_sk cfg) ts) false user sid true = (s', NhNotified name sid)) /\
+  (forall dl, vnh_handle_visitor hash s name ts (hash (nc_sk cfg) ts) true user sid dl = (s, NhPreOk)).
 Proof. exact star_admits_any_user_with_key_hole. Qed.
 Print Assumptions C08_star_admits_any_user_with_key_hole.
 
@@ -203,14 +212,15 @@ Example C08_ex_admitted_and_refused :
          SVisitorConn ex_r2 ex_p 5 (ex_hash ex_sk 6) false false 3 true;    (* wrong timestamp *)
          SVisitorConn [] ex_p 5 (ex_hash ex_sk 5) false false 4 true;       (* no run id: user "" *)
          SVisitorConn (hx "7a") ex_p 5 (ex_hash ex_sk 5) false false 5 true;(* unknown run id *)
-         SNatHole ex_r3 ex_x 5 (ex_hash ex_sk 5) false (hx "5331");         (* signed, user not allowed *)
-         SNatHole ex_r2 ex_x 5 (ex_hash ex_sk 5) true (hx "5332");          (* pre-check *)
-         SNatHole ex_r2 ex_x 5 (ex_hash ex_sk 5) false (hx "5333");         (* admitted *)
+         SNatHole ex_r3 ex_x 5 (ex_hash ex_sk 5) false (hx "5331") true;    (* signed, user not allowed *)
+         SNatHole ex_r2 ex_x 5 (ex_hash ex_sk 5) true (hx "5332") true;     (* pre-check *)
+         SNatHole ex_r2 ex_x 5 (ex_hash ex_sk 5) false (hx "5334") false;   (* admitted, owner not receiving *)
+         SNatHole ex_r2 ex_x 5 (ex_hash ex_sk 5) false (hx "5333") true;    (* admitted *)
          SAccept ex_p; SClose ex_r1 ex_p;
          SVisitorConn ex_r2 ex_p 5 (ex_hash ex_sk 5) true true 6 true]))
   = [ONone; ONone; ONone; OReg VLOk; OReg VLOk;
      OVis VOk; OVis VErrUser; OVis VErrAuth; OVis VErrUser; OVisErrNoControl;
-     ONh NhErrUser; ONh NhPreOk; ONh (NhNotified ex_x (hx "5333"));
+     ONh NhErrUser; ONh NhPreOk; ONh NhUndelivered; ONh (NhNotified ex_x (hx "5333"));
      OAccepted {| vc_id := 1; vc_stack := [LEnc ex_sk; LComp] |}; ONone; OVis VErrNoListener].
 Proof. vm_compute. reflexivity. Qed.
 
